@@ -6,9 +6,9 @@ CONSTANTS
   SameIP = FALSE
   AllowDupIP = TRUE
   MaxInbound = 1
-  MaxInst = 3
-  MaxIncoming = 2
-  MaxDials = 2
+  MaxInst = 2
+  MaxIncoming = 0
+  MaxDials = 1
   MaxStops = 2
   MaxTries = 1
   DialTids = {"d1", "d2"}
